@@ -4,15 +4,24 @@ The REAL functions run in a throw-away sandbox directory.  The file-system-modif
 (os.mkdir / os.rmdir / os.unlink / os.rename / open(.., "w"|"wb") / file.write / os.sendfile, including the
 ones inside pathlib, shutil.copytree, shutil.rmtree and ZipFile.extractall) are wrapped: every call that
 succeeds on a path below the sandbox is recorded, and right after the k-th one a BaseException is raised --
-the process "dies" between two operations.  A case is a history: some killed invocations, then two
-uninterrupted ones.  After every invocation the sandbox is snapshotted.  The recorded operation sequences,
-snapshots and results are compared with the Coq model (plan / run / crash prefix) and the independent Python
-oracle below states the property on the snapshots alone.
+the process "dies" between two operations -- or, `torn` cases, in the middle of the k-th one when it is a write
+(half of its bytes are out).  A case is a history: some killed invocations, then two uninterrupted ones.  After
+every invocation the sandbox is snapshotted.  The recorded operation sequences, snapshots and results are compared
+with the Coq model (plan / run / crash prefix / torn write) and the independent Python oracle below states the
+property on the snapshots alone.
+
+Folder of zips with num_workers >= 2: joblib.Parallel.__call__ is wrapped to record the tasks it is handed (compared
+with Model.unzip_jobs); the worker processes (loky, the default backend) are not traced, the final tree must be the
+complete copy.  1..9 archives x num_workers 0..4 (zips_workers_matrix).
 
 Thorough tier adds real SIGKILLs at system-call granularity: a child interpreter running the real function
 under `strace -e inject=<syscall>:signal=SIGKILL:when=<n>` is killed on entry to its n-th mkdir / openat /
 write / sendfile / unlink / rmdir / rename below the destination; a fresh process then runs the function
-to completion."""
+to completion.  The strace log of the child (-y -xx) is turned into the same event format as the tracer's
+(strace_events) and goes through the same Coq comparison: system calls observed vs. the model's plan.
+
+Measurement-only cases (measure_cases; nothing is claimed, results appear as `measure=...` keys of the evidence
+histogram): sources with marker-named entries, links that cannot be followed, two concurrent copiers."""
 import json
 import os
 import random
@@ -33,43 +42,85 @@ COQ_CASE_TYPE = "case_t"
 SHARD = 60
 TRUSTED = [
     "hand-written model coq/C20/Model.v of copy_folder_from_global_to_local, copy_imagefolder_from_global_to_local, "
-    "create_folder_with_file, delete_folder_content, folder_contains_mostly_zips, run_unzip_jobs(num_workers<=1) with "
-    "both C20 patches applied; tied to KD_REPO by this run's comparison of operation traces, trees and results",
+    "create_folder_with_file, delete_folder_content, folder_contains_mostly_zips, run_unzip_jobs (the partition of the "
+    "zips into joblib tasks: unzip_jobs; their concurrent execution: interleave with a schedule oracle) with both C20 "
+    "patches applied; tied to KD_REPO by this run's comparison of operation traces, joblib task lists, trees and results",
     "cited behaviour of the primitives the code calls: Path.mkdir(parents, exist_ok), shutil.copytree(dirs_exist_ok) "
-    "(pre-order, copy2 = create + one write, nothing written for an empty file), shutil.rmtree (post-order), "
-    "ZipFile.extractall (makedirs of missing parents, then the member), os.rename of a directory is atomic -- the "
-    "Python-level sequence is exercised against the real stdlib on every case, atomicity of rename(2) is assumed",
+    "(pre-order, copy2 = create + one write, nothing written for an empty file, symbolic links are followed), "
+    "shutil.rmtree (post-order), ZipFile.extractall (makedirs of missing parents, then the member), os.rename of a "
+    "directory is atomic -- the Python-level sequence is exercised against the real stdlib on every case, in the thorough "
+    "tier also at system-call level (strace log -> events -> Coq comparison); atomicity of rename(2) is assumed",
     "process death only: what a completed system call wrote is there afterwards (no power loss / fsync reasoning); "
-    "kills inside one system call are not modelled beyond create-then-write of a file",
+    "a kill inside a write is modelled as 'the first n bytes are out' for arbitrary n (attempt.a_torn, Model.tear; "
+    "exercised by the in-process tracer, which lets half of the bytes of a write through before the simulated death -- "
+    "strace cannot tear a write); other system calls are atomic; a kill of the calling process is assumed to kill joblib's worker processes with it (orphaned loky workers "
+    "that go on extracting after the parent died are a case of concurrent writers, outside the model)",
     "path arithmetic (relative_path, with_suffix('.zip'), stripping of a '.zip' relative_path in image_folder.py) is "
     "done by the harness, the model receives dst_path",
-    "num_workers >= 2 (joblib processes): only the final tree and result are checked, the workers' operations are not "
-    "traced and the model treats the extraction as sequential",
+    "num_workers >= 2 (joblib/loky worker processes): the calling process's operations, the list of tasks handed to "
+    "joblib.Parallel (recorded by wrapping Parallel.__call__, compared with Model.unzip_jobs), the final tree and the "
+    "result are checked; the operations inside the worker processes are not traced -- the model runs them under the "
+    "schedule [] and the comparison of the final tree relies on extraction_order_irrelevant / "
+    "parallel_extraction_is_a_permutation (any schedule yields the same tree).  The schedule oracle interleaves whole "
+    "member extractions of different tasks in any order (not limited by num_workers, a superset of what joblib does); "
+    "system-call-level interleavings inside two member extractions are not modelled: members of different tasks "
+    "write different paths, they can only meet in a shared parent directory, where ZipFile's check-then-makedirs race "
+    "makes a call RAISE FileExistsError (not return) -- the generated archives of one folder have disjoint directories",
     "harness/c20.py: Tracer (operation wrappers), sandbox construction, snapshotting; thorough tier: strace 6.1 fault "
     "injection delivers SIGKILL on syscall entry (checked on every run: the call is absent afterwards); there the "
     "kappadata package __init__ is bypassed (only kappadata.copying.* and kappadata.utils.logging are loaded from the "
-    "real files) to keep one kill below a second; strace cases are checked by the Python oracle only",
+    "real files) to keep one kill below a second; strace_events (log -> events: one event per completed mkdir / "
+    "openat(O_CREAT) / write / sendfile / unlink(at) / rmdir / rename below the sandbox)",
     "Check.complete_copyb is proved sound (complete_copyb_sound); Check.spec_step is the executable reading of the "
-    "theorems on the implementation's observations",
+    "theorems on the implementation's observations; Check.split3 cuts the model's plan into calling process / workers / "
+    "end marker by operation counts",
+    "measurement-only cases (feature keys `measure=...`: marker-named entries in the source, links that cannot be "
+    "followed, two concurrent copiers) are outside the domain: they are run and recorded, the oracle claims nothing",
 ]
 ASSUMPTIONS = [
     "before the first call the destination either does not exist (and the sibling name <dst>.autocopy_tmp is unused) "
     "or is a user-provided folder without autocopy_start.txt; the same arguments are used by every call of a history",
     "the source does not change during a history; sibling names / zip member names are distinct, no zip member is "
-    "both a file and a directory prefix, nothing directly inside the source is named autocopy_start.txt / "
-    "autocopy_end.txt (src_ok)",
-    "one process at a time works on a destination (no concurrent copies); a directory scan returns every entry",
+    "both a file and a directory prefix (src_ok)",
+    "EXCLUDED: sources with an entry named autocopy_start.txt / autocopy_end.txt directly inside (Spec.src_ok requires "
+    "src_lookup [sname] = src_lookup [ename] = None).  Measured on every run (histogram keys "
+    "`measure=marker_named_source`): with such a source the real code DOES return over an incomplete copy for some "
+    "kill points (the source's own autocopy_end.txt is copied before the rest; see fixes/C20_marker_named_source.txt)",
+    "directory listings (hypothesis attempts_ok of crash_safe / start_marker_invariant / completed_copy_never_redone / "
+    "other_files_untouched, and order_in_dst / order_covers for the call that returns): every directory scan of "
+    "delete_folder_content / rmtree returns only entries below the destination; a call that gets as far as creating the "
+    "end marker -- in particular the one that returns -- has seen EVERY entry that was in the destination when it "
+    "started.  Calls killed earlier may have seen any part of the listing (killed_before_end_marker_needs_no_honest_"
+    "listing); the stronger 'every call sees an honest listing' implies it (honest_listings_suffice)",
+    "one process at a time works on a destination.  NOT covered: two concurrent copiers -- the model itself refutes the "
+    "property there (theorem concurrent_copiers_are_not_covered: A returns was_copied=True with a file missing that B "
+    "deleted) and the real code is measured on every run (histogram keys `measure=concurrent_copiers`: with a start "
+    "offset of a few ms one process returns normally over an incomplete destination that stays sealed by the end marker)",
+    "num_workers >= 2: a kill of the calling process is assumed to end its joblib workers at the same instant (a kill of "
+    "the whole job / process group / cgroup); an OSError inside a worker makes the call raise.  NOT covered: SIGKILL of "
+    "the calling process alone -- measured once by hand (2 zips x 6000 files, 2 workers): the orphaned loky workers "
+    "finish their current unzip task (401 -> 12001 files within 1 s after the parent's death) before they exit; a call "
+    "started meanwhile works concurrently with them (same bytes are written, but see the concurrent-copiers item)",
+    "symbolic links in a plain source are followed (shutil.copytree default): the copy holds the content the link "
+    "points to; links that cannot be followed (dangling, loops) make every call raise shutil.Error (measured: "
+    "`measure=dangling_symlink`, `measure=symlink_loop`) -- the call never returns normally, nothing is claimed",
     "a folder of zips yields the union of the archives' members; other files in it (README) are not copied (by design "
     "of folder_contains_mostly_zips)",
 ]
 ALLOWED_AXIOMS = []
-RULE = ("sources: random trees (depth <= 3, empty files, empty directories) as plain folder / single zip / folder of 1-3 "
-        "zips (+ README), for both functions, relative_path none / 'ds' / 'a/ds' (image: also 'ds.zip'), local root "
-        "present or absent, destination fresh or a manual folder; histories: EVERY kill point k of the first call for "
-        "directed and sampled configurations, every kill point of a second call over an interrupted first one (the "
-        "wipe), random 2-3 successive kills; always followed by two uninterrupted calls; non-trivial = at least one "
-        "killed invocation that had performed an operation; distinct by (function, format, rel, init, kill points, "
-        "state class at each kill)")
+RULE = ("sources: random trees (depth <= 3, empty files, empty directories, now and then a symbolic link to a sibling) as "
+        "plain folder / single zip / folder of zips (+ README), for both functions, relative_path none / 'ds' / 'a/ds' "
+        "(image: also 'ds.zip'), local root present or absent, destination fresh or a manual folder; histories: EVERY kill "
+        "point k of the first call for directed and sampled configurations (this includes the kill between creating and "
+        "writing the end marker), kills INSIDE every write of >= 2 bytes (half of the bytes are out: data files, start "
+        "marker, end marker), every kill point of a second call over an interrupted first one (the wipe), random 2-3 "
+        "successive kills; always followed by two uninterrupted calls.  Folder of zips x num_workers: 1..9 archives x "
+        "num_workers 0..4 -- all 45 combinations for both functions in the thorough tier, all archive counts x "
+        "num_workers {0, 1, two of 2..4} in the quick tier -- uninterrupted and with killed calls before.  Thorough: "
+        "every file-system system call of a fresh copy / of a copy over an interrupted one SIGKILLed on entry under "
+        "strace, and the uninterrupted call under strace, the system-call log compared with the model's plan in Coq.  "
+        "Non-trivial = at least one killed invocation that had performed an operation, or a multi-worker extraction; "
+        "distinct by (function, format, rel, init, kill points, workers, state class at each kill)")
 
 SNAME = "autocopy_start.txt"
 ENAME = "autocopy_end.txt"
@@ -90,12 +141,15 @@ class Tracer:
     P1 = [("mkdir", "mkdir"), ("rmdir", "rmdir"), ("unlink", "unlink"), ("remove", "unlink"), ("truncate", "truncate")]
     P2 = [("rename", "rename"), ("replace", "rename"), ("symlink", "symlink"), ("link", "link")]
 
-    def __init__(self, root, kill_at=None):
+    def __init__(self, root, kill_at=None, torn=False):
         self.root = os.path.realpath(root)
         self.kill_at = kill_at
+        self.torn = torn         # the kill_at-th operation, if it is a write of >= 2 bytes, only gets half of them out
+        self.torn_n = None       # ... the number of bytes that were written in that case
         self.ops = []
         self.dead = False
         self.zombie = []
+        self.pools = []          # one entry per joblib.Parallel call: {"n_jobs": .., "jobs": [[function name, [zip names]]]}
         self._saved = {}
 
     def _rel(self, p, dir_fd=None):
@@ -172,10 +226,17 @@ class Tracer:
         if rel is None:
             return real(out_fd, in_fd, offset, count, *a, **kw)
         self._pre(["write", rel])
+        if self.tearing():
+            size = os.fstat(in_fd).st_size - (offset or 0)
+            if size >= 2:
+                count = self.torn_n = size // 2
         n = real(out_fd, in_fd, offset, count, *a, **kw)
         if n > 0:
             self._post(["write", rel, list(os.pread(in_fd, n, offset))])
         return n
+
+    def tearing(self):
+        return self.torn and self.kill_at is not None and len(self.ops) + 1 == self.kill_at
 
     def __enter__(self):
         import builtins
@@ -191,6 +252,16 @@ class Tracer:
         os.sendfile = self._sendfile
         builtins.open = self._open
         io.open = self._open
+        import joblib
+        self._saved["parallel_call"] = joblib.Parallel.__call__
+        tracer = self
+
+        def parallel_call(pool, iterable):
+            jobs = list(iterable)
+            tracer.pools.append({"n_jobs": pool.n_jobs, "jobs": [[getattr(j[0], "__name__", "?"), _zip_names(j[1:])]
+                                                                  for j in jobs]})
+            return tracer._saved["parallel_call"](pool, jobs)
+        joblib.Parallel.__call__ = parallel_call
         return self
 
     def __exit__(self, *exc):
@@ -200,9 +271,28 @@ class Tracer:
             if n == "open":
                 builtins.open = f
                 io.open = f
+            elif n == "parallel_call":
+                import joblib
+                joblib.Parallel.__call__ = f
             else:
                 setattr(os, n, f)
         return False
+
+
+def _zip_names(x):
+    """the names of the *.zip files mentioned anywhere in the arguments of a joblib task, in order"""
+    out = []
+    if isinstance(x, (str, os.PathLike)):
+        nm = os.path.basename(os.fspath(x))
+        if nm.endswith(".zip"):
+            out.append(nm)
+    elif isinstance(x, dict):
+        for v in x.values():
+            out += _zip_names(v)
+    elif isinstance(x, (list, tuple)):
+        for v in x:
+            out += _zip_names(v)
+    return out
 
 
 class _FileProxy:
@@ -215,6 +305,9 @@ class _FileProxy:
         if len(data) == 0:
             return self._f.write(data)
         self._tr._pre(["write", self._rel])
+        if self._tr.tearing() and len(data) >= 2:
+            data = data[:len(data) // 2]
+            self._tr.torn_n = len(data)
         n = self._f.write(data)
         self._f.flush()
         b = data.encode() if isinstance(data, str) else bytes(data)
@@ -276,6 +369,11 @@ def gen_source(rng, fmt, variant):
         t = gen_tree(rng, rng.choice([1, 2, 2, 3]))
         if not t:
             t = [["a.txt", {"f": [1]}]]
+        if rng.random() < 0.2:
+            # a symbolic link to a sibling file or directory (copytree follows it)
+            nm, node = rng.choice(t)
+            t.append(["link_" + nm, {"l": nm}])
+            rng.shuffle(t)
         return {"tree": t}
     if fmt == "zip":
         ms = tree_members(gen_tree(rng, rng.choice([1, 2, 2])), rng)
@@ -297,6 +395,22 @@ def gen_source(rng, fmt, variant):
     return {"items": items}
 
 
+def zips_source(rng, variant, nz):
+    """a folder of exactly nz zips (1-3 small members each, now and then an empty archive), sometimes with a README;
+    member names of different archives are disjoint (folder.py extracts them all into the same directory)"""
+    items = []
+    for i in range(nz):
+        tag = "" if variant == "image" else str(i)
+        ms = tree_members(gen_tree(rng, rng.choice([0, 0, 0, 1]), tag), rng)
+        if not ms and rng.random() < 0.8:
+            ms = [[["a" + tag + ".txt"], [65 + i]]]
+        items.append([f"n{i:02d}.zip", {"zip": ms}])
+    if rng.random() < 0.3:
+        items.append(["README", {"f": [82, 69]}])
+    rng.shuffle(items)
+    return {"items": items}
+
+
 def expected_content(case):
     """independent description of what a complete copy contains: {relative path tuple: None (dir) | bytes}"""
     out = {}
@@ -308,8 +422,22 @@ def expected_content(case):
             out.setdefault(full[:i], None)
         out[full] = None if data is None else bytes(data)
 
-    def walk(tree, pre):
+    def find(tree, comps):
         for nm, node in tree:
+            if nm == comps[0]:
+                return node if len(comps) == 1 else find(node["d"], comps[1:])
+        raise KeyError(comps)
+
+    def walk(tree, pre, here=None):
+        here = tree if here is None else here
+        for nm, node in tree:
+            if "l" in node:
+                # shutil.copytree(symlinks=False) follows links: what is copied is what the link points to
+                # (generated links point to a sibling in the same directory)
+                try:
+                    node = find(here, node["l"].split("/"))
+                except KeyError:        # a link that cannot be followed (measurement cases only): nothing to expect
+                    continue
             if "f" in node:
                 out[pre + (nm,)] = bytes(node["f"])
             else:
@@ -346,7 +474,9 @@ def _write_tree(base, tree):
     os.makedirs(base, exist_ok=True)
     for nm, node in tree:
         p = os.path.join(base, nm)
-        if "f" in node:
+        if "l" in node:
+            os.symlink(node["l"], p)      # relative target, resolved from the directory that contains the link
+        elif "f" in node:
             with open(p, "wb") as f:
                 f.write(bytes(node["f"]))
         else:
@@ -408,6 +538,9 @@ def snapshot(root, skip=("g", "g.zip")):
         for x in ds:
             out.append([relc + [x], None])
         for x in sorted(fs):
+            if os.path.islink(os.path.join(d, x)):
+                out.append([relc + [x], list(b"\0link:" + os.fsencode(os.readlink(os.path.join(d, x))))])
+                continue
             with open(os.path.join(d, x), "rb") as f:
                 out.append([relc + [x], list(f.read())])
     return out
@@ -417,15 +550,18 @@ def listing(case, sp):
     """the source as the implementation will see it: directory listings in os.listdir order"""
     fmt = case["fmt"]
 
-    def ls(path):
+    def ls(path, depth=0):
         out = []
         for nm in os.listdir(path):
             p = os.path.join(path, nm)
             if os.path.isdir(p):
-                out.append([nm, {"d": ls(p)}])
+                out.append([nm, {"d": ls(p, depth + 1) if depth < 12 else []}])   # (the cap only matters for link loops)
             else:
-                with open(p, "rb") as f:
-                    out.append([nm, {"f": list(f.read())}])
+                try:
+                    with open(p, "rb") as f:
+                        out.append([nm, {"f": list(f.read())}])
+                except OSError:                                                   # a dangling link
+                    out.append([nm, {"f": []}])
         return out
 
     info = {"dir": None, "zips": [], "zip": None}
@@ -480,7 +616,7 @@ def _rel_arg(case):
 
 def one_call(case, fn, root, g, l, kill_at):
     att = {"kill_at": kill_at, "ret": None, "error": None}
-    with Tracer(root, kill_at) as t:
+    with Tracer(root, kill_at, torn=bool(case.get("torn")) and kill_at is not None) as t:
         try:
             r = fn(g, l, relative_path=_rel_arg(case), num_workers=case.get("workers", 0))
             att["ret"] = _result(case, r)
@@ -490,6 +626,8 @@ def one_call(case, fn, root, g, l, kill_at):
             att["error"] = repr(e)[:300]
     att["trace"] = t.ops
     att["zombie"] = t.zombie
+    att["pools"] = t.pools
+    att["torn"] = t.torn_n
     att["tree"] = snapshot(root)
     return att
 
@@ -510,6 +648,122 @@ assert os.path.abspath(sys.modules[fn.__module__].__file__).startswith(os.path.a
 r = fn(g, l, relative_path=None if rel == "-" else rel)
 print("RESULT " + json.dumps(r.__dict__))
 '''
+CONC_RUNNER = r'''
+import sys, types, json, os, time
+repo, variant, g, l, rel, t0, expfile = sys.argv[1:8]
+for name in ("kappadata", "kappadata.utils"):
+    m = types.ModuleType(name); m.__path__ = [os.path.join(repo, *name.split("."))]; sys.modules[name] = m
+if variant == "folder":
+    from kappadata.copying.folder import copy_folder_from_global_to_local as fn
+else:
+    from kappadata.copying.image_folder import copy_imagefolder_from_global_to_local as fn
+assert os.path.abspath(sys.modules[fn.__module__].__file__).startswith(os.path.abspath(repo))
+exp = json.load(open(expfile))
+def complete():
+    dst, seen = exp["dst"], {}
+    for d, ds, fs in os.walk(dst):
+        for x in ds:
+            seen[os.path.relpath(os.path.join(d, x), dst)] = None
+        for x in fs:
+            try:
+                with open(os.path.join(d, x), "rb") as f:
+                    seen[os.path.relpath(os.path.join(d, x), dst)] = f.read().hex()
+            except OSError:
+                seen[os.path.relpath(os.path.join(d, x), dst)] = "?"
+    seen.pop("autocopy_start.txt", None); seen.pop("autocopy_end.txt", None)
+    return seen == exp["files"]
+while time.time() < float(t0):
+    pass
+try:
+    r = fn(g, l, relative_path=None if rel == "-" else rel)
+    c = complete()
+    print("RESULT " + json.dumps({"ret": r.__dict__, "complete_at_return": c}))
+except BaseException as e:
+    print("RAISED " + json.dumps({"type": type(e).__name__, "msg": str(e)[:200]}))
+'''
+
+
+def run_concurrent(case):
+    """MEASUREMENT (nothing is claimed): n processes call the function on the same destination at (almost) the same
+    time -- the second one `stagger_ms` later; afterwards one more call, alone."""
+    import time
+    from . import common
+    spec = case["concurrent"]
+    root, g, l, sp = build_sandbox(case)
+    try:
+        exp = expected_content(case)
+        dst = os.path.join(root, *dst_comps(case))
+        expfile = os.path.join(root, "expected.json")
+        with open(expfile, "w") as f:
+            json.dump({"dst": dst, "files": {"/".join(k): (None if v is None else v.hex()) for k, v in exp.items()}}, f)
+        runner = os.path.join(root, "conc_runner.py")
+        with open(runner, "w") as f:
+            f.write(CONC_RUNNER)
+        t0 = time.time() + 1.5
+        procs = []
+        for i in range(spec["n"]):
+            cmd = [sys.executable, runner, common.KD_REPO, case["variant"], g, l, _rel_arg(case) or "-",
+                   repr(t0 + i * spec["stagger_ms"] / 1000.0), expfile]
+            procs.append(subprocess.Popen(cmd, stdout=subprocess.PIPE, stderr=subprocess.PIPE, text=True,
+                                          env=_strace_env(), cwd=root))
+        outs = []
+        for pr in procs:
+            try:
+                o, e = pr.communicate(timeout=120)
+            except subprocess.TimeoutExpired:
+                pr.kill()
+                o, e = "", "timeout"
+            rec = {"kind": "died", "detail": e[-200:]}
+            for ln in o.splitlines():
+                if ln.startswith("RESULT "):
+                    d = json.loads(ln[7:])
+                    rec = {"kind": "returned", "was_copied": bool(d["ret"].get("was_copied")),
+                           "complete_at_return": d["complete_at_return"]}
+                elif ln.startswith("RAISED "):
+                    d = json.loads(ln[7:])
+                    rec = {"kind": "raised", "type": d["type"], "msg": d["msg"]}
+            outs.append(rec)
+        for f in (expfile, runner):
+            os.unlink(f)
+
+        def state():
+            cur = _as_dict(snapshot(root))
+            d = tuple(dst_comps(case))
+            sub = {p[len(d):]: v for p, v in cur.items() if p[:len(d)] == d}
+            content = {p: v for p, v in sub.items() if p not in ((), (SNAME,), (ENAME,))}
+            left = sorted("/".join(p) for p in cur if p[:len(d)] != d and d[:len(p)] != p)
+            return {"exists": () in sub, "start": (SNAME,) in sub, "end": (ENAME,) in sub, "complete": content == exp,
+                    "leftovers": left[:3]}
+        after = state()
+        fn = _get_fn(case)
+        last = one_call(case, fn, root, g, l, None)
+        final = state()
+        return {"concurrent": {"procs": outs, "after": after,
+                               "last_call": {"ret": last["ret"], "error": last["error"]}, "final": final}}
+    finally:
+        shutil.rmtree(root, ignore_errors=True)
+
+
+def _conc_summary(c):
+    ps = []
+    for o in c["procs"]:
+        if o["kind"] == "returned":
+            ps.append(("copied" if o["was_copied"] else "nothing-to-do")
+                      + ("" if o["complete_at_return"] else "+INCOMPLETE-AT-RETURN"))
+        elif o["kind"] == "raised":
+            ps.append("raised:" + o["type"])
+        else:
+            ps.append("died")
+    a = c["after"]
+    st = ("complete" if a["complete"] and a["end"] else
+          "SEALED-INCOMPLETE" if a["end"] else "unsealed" if a["exists"] else "absent") + ("+leftovers" if a["leftovers"] else "")
+    f = c["final"]
+    fin = ("complete" if f["complete"] and f["end"] else "INCOMPLETE") + ("+leftovers" if f["leftovers"] else "")
+    if c["last_call"]["error"]:
+        fin += "+raised"
+    return "procs=" + "|".join(sorted(ps)) + " then=" + st + " after-one-more-call=" + fin
+
+
 SYSCALLS = ["mkdir", "mkdirat", "openat", "unlink", "unlinkat", "rmdir", "rename", "renameat", "renameat2",
             "write", "sendfile", "copy_file_range"]
 
@@ -532,60 +786,122 @@ def _runner_cmd(case, root, g, l):
 
 def parse_strace(logfile, root):
     """the file-system-modifying system calls below root/l* : [(syscall name, ordinal among all calls of that
-    name in the log, completed?)] in order"""
+    name in the log, completed?)] in order (log written with -y -xx, see strace_events)"""
     import re
     counts = {}
-    fds = {}
     out = []
-    lroot = os.path.join(root, "l")
+    lroot = os.path.join(os.path.realpath(root), "l")
+
+    def below(p):
+        return p == lroot or p.startswith(lroot + "/") or p.startswith(lroot + ".")
+
     for line in open(logfile, errors="replace"):
         m = re.match(r"^(\d+)\s+(\w+)\((.*)$", line)
         if not m:
             continue
         name, rest = m.group(2), m.group(3)
-        if name == "close":
-            mm = re.match(r"(\d+)\)", rest)
-            if mm:
-                fds.pop(int(mm.group(1)), None)
-            continue
         if name not in SYSCALLS:
             continue
         counts[name] = counts.get(name, 0) + 1
         done = "<unfinished" not in rest and not rest.rstrip().endswith("= ?")
-        rel = False
-        if name in ("write", "sendfile", "copy_file_range"):
-            mm = re.match(r"(\d+)", rest)
-            fd = int(mm.group(1)) if mm else -1
-            if name == "copy_file_range":
-                mm = re.match(r"\d+,\s*\w+,\s*(\d+)", rest)
-                fd = int(mm.group(1)) if mm else -1
-            rel = fd in fds
+        strs = [_unhex(x).decode("utf-8", "surrogateescape") for x in re.findall(r'"(' + _HEX + r')"', rest)]
+        fdp = [_unhex(x).decode("utf-8", "surrogateescape") for x in re.findall(r'\d+<(' + _HEX + r')>', rest)]
+        if name in ("write", "sendfile"):
+            rel = bool(fdp) and below(fdp[0])
+        elif name == "copy_file_range":
+            rel = len(fdp) > 1 and below(fdp[1])
         else:
-            paths = re.findall(r'"([^"]*)"', rest)
-            hit = [p for p in paths if p == lroot or p.startswith(lroot + "/") or p.startswith(lroot + ".")]
-            if name == "openat":
-                if hit and ("O_WRONLY" in rest or "O_RDWR" in rest or "O_CREAT" in rest):
-                    rel = True
-                    mm = re.search(r"=\s*(\d+)\s*$", rest)
-                    if mm:
-                        fds[int(mm.group(1))] = hit[0]
-                else:
-                    mm = re.search(r"=\s*(\d+)\s*$", rest)
-                    if mm:
-                        fds.pop(int(mm.group(1)), None)
-            else:
-                rel = bool(hit)
-                if name in ("unlinkat",) and not hit:
-                    # rmtree works relative to directory descriptors: unlinkat(5, "name", ..)
-                    mm = re.match(r"(\d+),", rest)
-                    rel = bool(mm) and not rest.startswith("AT_FDCWD")
+            base = fdp[0] if fdp else ""
+            paths = [p if os.path.isabs(p) else os.path.normpath(os.path.join(base, p)) for p in strs]
+            rel = any(below(p) for p in paths)
+            if name == "openat" and not ("O_WRONLY" in rest or "O_RDWR" in rest or "O_CREAT" in rest):
+                rel = False
         if rel:
             out.append((name, counts[name], done))
     return out
 
 
+_HEX = r'(?:\\x[0-9a-f]{2})*'
+
+
+def _unhex(s):
+    return bytes.fromhex(s.replace("\\x", ""))
+
+
+def strace_events(logfile, root):
+    """the COMPLETED file-system-modifying system calls on paths below root (outside the global side) in the format of
+    Tracer.ops -- one event per system call: mkdir -> mkdir, openat(O_WRONLY|O_CREAT|O_TRUNC) -> create, write /
+    sendfile of n > 0 bytes -> write (with the bytes), unlink / unlinkat -> unlink, rmdir / unlinkat(AT_REMOVEDIR) ->
+    rmdir, rename -> rename.  The log was written with -y -xx: every string is hex-escaped, descriptors carry their path."""
+    import re
+    root = os.path.realpath(root)
+
+    def rel(path):
+        if path == root:
+            return []
+        if path.startswith(root + "/"):
+            comps = path[len(root) + 1:].split("/")
+            return None if comps[0] in ("g", "g.zip") else comps
+        return None
+
+    ev = []
+    for line in open(logfile, errors="replace"):
+        m = re.match(r"^\d+\s+(\w+)\((.*)\)\s+=\s+(-?\d+)", line)
+        if not m:
+            continue
+        name, args, ret = m.group(1), m.group(2), int(m.group(3))
+        if ret < 0:
+            continue
+        strs = [_unhex(x).decode("utf-8", "surrogateescape") for x in re.findall(r'"(' + _HEX + r')"', args)]
+        fdp = [_unhex(x).decode("utf-8", "surrogateescape") for x in re.findall(r'\d+<(' + _HEX + r')>', args)]
+        if name == "mkdir" and strs:
+            r = rel(strs[0])
+            if r is not None:
+                ev.append(["mkdir", r])
+        elif name == "mkdirat" and strs:
+            base = fdp[0] if fdp and not os.path.isabs(strs[0]) else ""
+            r = rel(os.path.normpath(os.path.join(base, strs[0])))
+            if r is not None:
+                ev.append(["mkdir", r])
+        elif name == "openat" and strs:
+            if "O_CREAT" in args or ("O_TRUNC" in args and ("O_WRONLY" in args or "O_RDWR" in args)):
+                base = fdp[0] if fdp and not os.path.isabs(strs[0]) else ""
+                r = rel(os.path.normpath(os.path.join(base, strs[0])))
+                if r is not None:
+                    ev.append(["create", r])
+        elif name == "write" and fdp:
+            r = rel(fdp[0])
+            if r is not None and ret > 0:
+                mm = re.search(r'>,\s+"(' + _HEX + r')"', args)
+                data = _unhex(mm.group(1)) if mm else b""
+                ev.append(["write", r, list(data[:ret]) if len(data) >= ret else ["?truncated"]])
+        elif name in ("sendfile", "copy_file_range") and len(fdp) >= 2:
+            out_p, in_p = (fdp[0], fdp[1]) if name == "sendfile" else (fdp[1], fdp[0])
+            r = rel(out_p)
+            if r is not None and ret > 0:
+                mm = re.search(r"\[(\d+)\]", args)
+                off = int(mm.group(1)) if mm else 0
+                with open(in_p, "rb") as f:
+                    f.seek(off)
+                    ev.append(["write", r, list(f.read(ret))])
+        elif name in ("unlink", "rmdir") and strs:
+            r = rel(strs[0])
+            if r is not None:
+                ev.append([name, r])
+        elif name == "unlinkat" and strs:
+            base = fdp[0] if fdp and not os.path.isabs(strs[0]) else ""
+            r = rel(os.path.normpath(os.path.join(base, strs[0])))
+            if r is not None:
+                ev.append(["rmdir" if "AT_REMOVEDIR" in args else "unlink", r])
+        elif name in ("rename", "renameat", "renameat2") and len(strs) >= 2:
+            r1, r2 = rel(strs[0]), rel(strs[1])
+            if r1 is not None or r2 is not None:
+                ev.append(["rename", r1, r2])
+    return ev
+
+
 def strace_run(case, root, g, l, inject=None, log=None):
-    cmd = ["strace", "-f", "-o", log or os.path.join(root, "strace.log"),
+    cmd = ["strace", "-f", "-y", "-xx", "-s", "65536", "-o", log or os.path.join(root, "strace.log"),
            "-e", "trace=" + ",".join(SYSCALLS + ["close"])]
     if inject:
         cmd += ["-e", f"inject={inject[0]}:signal=SIGKILL:when={inject[1]}"]
@@ -598,6 +914,8 @@ def strace_run(case, root, g, l, inject=None, log=None):
 # running the implementation
 # ---------------------------------------------------------------------------
 def run_impl(case):
+    if case.get("concurrent"):
+        return run_concurrent(case)
     fn = _get_fn(case)
     root, g, l, sp = build_sandbox(case)
     try:
@@ -606,18 +924,27 @@ def run_impl(case):
         for k in case["kills"]:
             obs["attempts"].append(one_call(case, fn, root, g, l, k))
         if case.get("strace"):
+            # one invocation in a child process under strace: SIGKILLed on entry to the when-th call of syscall `name`
+            # (name = None: not interrupted); what it did is read off the system-call log
             name, when = case["strace"]
             log = os.path.join(root, "inject.log")
-            p = strace_run(case, root, g, l, inject=(name, when), log=log)
+            p = strace_run(case, root, g, l, inject=(name, when) if name else None, log=log)
             calls = parse_strace(log, root)
-            killed = p.returncode in (137, -9) or "RESULT" not in p.stdout
+            events = strace_events(log, root)
+            ret = None
+            for ln in p.stdout.splitlines():
+                if ln.startswith("RESULT "):
+                    import types
+                    ret = _result(case, types.SimpleNamespace(**json.loads(ln[7:])))
+            killed = ret is None and p.returncode in (137, -9)
             obs["strace"] = {"rc": p.returncode, "killed": killed, "completed_calls": sum(1 for c in calls if c[2]),
                              "last": list(calls[-1]) if calls else None, "stderr": p.stderr[-300:]}
             for f in ("inject.log", "runner.py", "strace.log"):
                 if os.path.exists(os.path.join(root, f)):
                     os.unlink(os.path.join(root, f))
-            obs["attempts"].append({"kill_at": "SIGKILL", "ret": None, "error": None, "trace": None, "zombie": [],
-                                    "tree": snapshot(root)})
+            err = None if (killed or ret is not None) else f"child exited with {p.returncode}: {p.stderr[-300:]}"
+            obs["attempts"].append({"kill_at": "SIGKILL" if killed else None, "ret": ret, "error": err, "trace": events,
+                                    "zombie": [], "pools": [], "torn": None, "tree": snapshot(root)})
         for _ in range(2):
             obs["attempts"].append(one_call(case, fn, root, g, l, None))
         obs["global_unchanged"] = gsnap0 == snapshot(root, skip=tuple(x for x in os.listdir(root)
@@ -637,14 +964,21 @@ def _as_dict(tree):
 def oracle(case, obs):
     if "harness_exception" in obs:
         return "harness exception: " + obs["harness_exception"] + " " + obs.get("tb", "")
+    if case.get("measure"):
+        # outside the domain of the property (ASSUMPTIONS): run, recorded in the evidence histogram, nothing is claimed
+        return None
+    return oracle_core(case, obs)
+
+
+def oracle_core(case, obs):
     dst = tuple(dst_comps(case))
-    exp = expected_content(case)
+    # (entries of the source named like the markers only occur in measurement cases -- they are excluded from the domain;
+    # there the two names are not compared)
+    exp = {p: v for p, v in expected_content(case).items() if p not in ((SNAME,), (ENAME,))}
     s0 = _as_dict(obs["s0"])
     manual = dst in s0 and dst + (SNAME,) not in s0
     if not obs.get("global_unchanged", True):
         return "the source (global) side was modified"
-    if case.get("strace") and not obs["strace"]["killed"]:
-        return None  # the injection point was not reached (environment-dependent ordinal): nothing to check
     prev = s0
     for i, att in enumerate(obs["attempts"]):
         cur = _as_dict(att["tree"])
@@ -680,8 +1014,10 @@ def oracle(case, obs):
                     missing = sorted(set(exp) - set(content))
                     extra = sorted(set(content) - set(exp))
                     diff = sorted(p for p in set(exp) & set(content) if exp[p] != content[p])
+                    jobs = [j[1] for pl in (att.get("pools") or []) for j in pl["jobs"]]
                     return (f"{tag}: returned {r} but the destination is not a complete copy of the source: "
-                            f"missing {missing[:4]} extra {extra[:4]} different {diff[:4]}")
+                            f"missing {missing[:4]} extra {extra[:4]} different {diff[:4]}"
+                            + (f"; num_workers={case.get('workers', 0)}, tasks handed to joblib: {jobs}" if jobs else ""))
                 # truthful result
                 want_fmt = {"plain": "raw", "zip": "zip", "zips": "zips"}[case["fmt"]]
                 if r["was_copied"]:
@@ -767,8 +1103,17 @@ def RES(r):
 
 
 def coq_applicable(case, obs):
-    return ("attempts" in obs and not case.get("strace") and case.get("workers", 0) <= 1
+    return ("attempts" in obs and not case.get("measure")
             and all(a["trace"] is not None for a in obs["attempts"]))
+
+
+def JOBS(att):
+    """the tasks of the (single) joblib.Parallel call of an invocation, as lists of zip names"""
+    pools = att.get("pools") or []
+    if not pools:
+        return Raw("None")
+    jobs = [j[1] for p in pools for j in p["jobs"]]
+    return Raw("(Some [" + "; ".join("[" + "; ".join(S(n) for n in job) + "]" for job in jobs) + "])")
 
 
 def coq_case(case, obs):
@@ -781,11 +1126,14 @@ def coq_case(case, obs):
         Raw("(Some [" + "; ".join("(" + S(n) + ", " + T(x) + ")" for n, x in src["dir"]) + "])"),
         c_zips=Raw("[" + "; ".join("(" + S(n) + ", [" + "; ".join(M(m) for m in ms) + "])" for n, ms in src["zips"]) + "]"),
         c_zip=Raw("None") if src["zip"] is None else Raw("(Some [" + "; ".join(M(m) for m in src["zip"]) + "])"),
+        c_workers=Nat(max(0, int(case.get("workers", 0)))),
     )
     obs_terms = []
     for att in obs["attempts"]:
         order = [op[1] for op in att["trace"] if op[0] in ("unlink", "rmdir") and len(op[1]) > len(d)]
         obs_terms.append(Rec(o_order=Raw("[" + "; ".join(P(p) for p in order) + "]"),
+                             o_sched=Raw("[]"), o_jobs=JOBS(att),
+                             o_torn=Raw("None") if att.get("torn") is None else Raw("(Some %d%%nat)" % att["torn"]),
                              o_trace=Raw("[" + "; ".join(EV(op) for op in att["trace"]) + "]"),
                              o_ret=RES(att["ret"]),
                              o_tree=FS(att["tree"])))
@@ -888,13 +1236,108 @@ def gen_cases(rng, tier):
         for man in ([], [[["mine.txt"], [1, 2]], [["sub"], None]], [[["a.txt"], [9]]]):
             b = base_case(variant, "plain", "data", D25_SRC, init="manual", manual=man)
             out += [with_kills(b, []), with_kills(b, [1]), with_kills(b, [3, 1])]
-    # joblib workers (final tree and result only)
-    for variant in (("folder", "image") if tier == "thorough" else ("image",)):
-        b = [x for x in directed_bases() if x["variant"] == variant and x["fmt"] == "zips"][0]
-        b = dict(b, workers=2)
-        out += [with_kills(b, [3]), with_kills(b, [8, 2])]
+    out += torn_cases(rng, tier, bases)
+    out += measure_cases(rng, tier)
+    out += zips_workers_matrix(rng, tier)
     if tier == "thorough":
         out += strace_cases(rng)
+    return out
+
+
+def big_tree(n_dirs, n_files):
+    return [[f"d{i}", {"d": [[f"f{j}.bin", {"f": [(i * 7 + j) % 256] * 40}] for j in range(n_files)]}] for i in range(n_dirs)]
+
+
+def measure_cases(rng, tier):
+    """inputs OUTSIDE the domain of the property (see ASSUMPTIONS): the real code is run on them and what happens is
+    recorded in the evidence histogram (feature keys `measure=...`); the oracle claims nothing about them"""
+    out = []
+    thorough = tier == "thorough"
+    # (a) the source contains a file named like one of the markers (excluded by src_ok)
+    for variant in (("folder", "image") if thorough else (rng.choice(["folder", "image"]),)):
+        for marker in (ENAME, SNAME):
+            srcs = [("plain", {"tree": D25_SRC["tree"] + [[marker, {"f": [1]}]]}),
+                    ("zip", {"members": [[[marker], [1]], [["a.txt"], [65]], [["sub", "b.txt"], [66]]]}),
+                    ("zips", {"items": [["n0.zip", {"zip": [[[marker], [1]], [["a0.txt"], [65]]]}],
+                                        ["n1.zip", {"zip": [[["b1.txt"], [66]]]}]]})]
+            for fmt, src in srcs:
+                b = base_case(variant, fmt, "ds", src, measure="marker_named_source")
+                n = count_ops(b)
+                ks = range(1, n + 1) if thorough else sorted(rng.sample(range(1, n + 1), min(n, 3)))
+                out += [with_kills(b, [])] + [with_kills(b, [k]) for k in ks]
+    # (b) symbolic links that cannot be followed
+    for variant in (("folder", "image") if thorough else ("folder",)):
+        out.append(base_case(variant, "plain", "ds", {"tree": [["a.txt", {"f": [65]}], ["gone", {"l": "nowhere"}]]},
+                             measure="dangling_symlink"))
+        if thorough:
+            out.append(base_case(variant, "plain", "ds", {"tree": [["a.txt", {"f": [65]}],
+                                                                   ["sub", {"d": [["up", {"l": ".."}]]}]]},
+                                 measure="symlink_loop"))
+    # (c) several copiers at once on one destination
+    trials = 4 if thorough else 1
+    for fmt, src in (("plain", {"tree": big_tree(6, 40)}),
+                     ("zip", {"members": tree_members(big_tree(6, 40), random.Random(0))}),
+                     ("zips", {"items": [[f"n{i}.zip", {"zip": tree_members(big_tree(1, 60), random.Random(0), (f"z{i}",))}]
+                                         for i in range(4)]})):
+        for stagger in ((0, 3, 15) if thorough else (rng.choice([0, 3, 15]),)):
+            for _ in range(trials):
+                variant = rng.choice(["folder", "image"])
+                out.append(base_case(variant, fmt, "ds", src, local_exists=True, measure="concurrent_copiers",
+                                     concurrent={"n": 2, "stagger_ms": stagger}))
+    return out
+
+
+def torn_cases(rng, tier, bases):
+    """kills INSIDE a write: for every write of >= 2 bytes of the first call (and of a call over an interrupted copy)
+    only the first half of the bytes gets out before the process dies"""
+    out = []
+
+    def writes(case):
+        fn = _get_fn(case)
+        root, g, l, sp = build_sandbox(case)
+        try:
+            for k in case["kills"]:
+                one_call(case, fn, root, g, l, k)
+            tr = one_call(dict(case, torn=False), fn, root, g, l, None)["trace"]
+        finally:
+            shutil.rmtree(root, ignore_errors=True)
+        return [i + 1 for i, op in enumerate(tr) if op[0] == "write" and len(op[2]) >= 2], len(tr)
+
+    for bi, b in enumerate(bases):
+        b = dict(b, torn=True)
+        ks, n = writes(b)
+        if tier == "quick" and bi >= 8:
+            ks = rng.sample(ks, min(len(ks), 2))
+        for k in ks:
+            out.append(with_kills(b, [k]))
+        if ks and (tier == "thorough" or bi < 8):
+            k1 = rng.choice(ks)
+            ks2, _ = writes(with_kills(b, [k1]))
+            for k2 in (ks2 if tier == "thorough" else rng.sample(ks2, min(len(ks2), 3))):
+                out.append(with_kills(b, [k1, k2]))
+    return out
+
+
+def zips_workers_matrix(rng, tier):
+    """folder-of-zips sources with 1..9 archives x num_workers: thorough = every combination with num_workers 0..4 for
+    both functions; quick = every archive count with num_workers 0, 1 and TWO of 2, 3, 4 (drawn from the seed: starting
+    joblib's loky workers costs an `import kappadata` of ~5 s per distinct num_workers), the function alternating over the
+    grid.  An uninterrupted call (followed, as always, by a second one), now and then killed calls before it.  Ordered by
+    decreasing num_workers and number of archives so that the worker processes of one num_workers start together."""
+    out = []
+    flip = rng.randrange(2)
+    w_quick = sorted(rng.sample([2, 3, 4], 2), reverse=True)
+    for w in ((4, 3, 2, 1, 0) if tier == "thorough" else (*w_quick, 1, 0)):
+        for nz in range(9, 0, -1):
+            variants = ("folder", "image") if tier == "thorough" else (("folder", "image")[(nz + w + flip) % 2],)
+            for variant in variants:
+                rel = rng.choice([None, "ds", "a/ds"])
+                b = base_case(variant, "zips", rel, zips_source(rng, variant, nz),
+                              local_exists=rel is not None and rng.random() < 0.5, workers=w)
+                out.append(with_kills(b, []))
+                if rng.random() < (0.5 if tier == "thorough" else 0.2):
+                    n = max(1, count_ops(b))
+                    out.append(with_kills(b, [rng.randint(1, n) for _ in range(rng.choice([1, 1, 2]))]))
     return out
 
 
@@ -921,6 +1364,7 @@ def strace_cases(rng):
                 calls = parse_strace(log, root)
             finally:
                 shutil.rmtree(root, ignore_errors=True)
+            out.append(dict(c, strace=[None, 0]))      # the whole call at system-call level, not interrupted
             for name, ordinal, done in calls:
                 cc = dict(c)
                 cc["strace"] = [name, ordinal]
@@ -951,7 +1395,17 @@ def shrink(case):
     if case["fmt"] == "plain" and len(case["src"]["tree"]) > 1 and not case.get("strace"):
         for i in range(len(case["src"]["tree"])):
             t = case["src"]["tree"]
-            yield dict(case, src={"tree": t[:i] + t[i + 1:]})
+            gone = t[i][0]
+            yield dict(case, src={"tree": [x for k, x in enumerate(t) if k != i and x[1].get("l") != gone]})
+    if case["fmt"] == "zips" and not case.get("strace"):
+        items = case["src"]["items"]
+        if sum(1 for _, it in items if "zip" in it) > 1 or any("zip" not in it for _, it in items):
+            for i in range(len(items)):
+                rest = items[:i] + items[i + 1:]
+                nzip = sum(1 for _, it in rest if "zip" in it)
+                if nzip >= 1 and nzip >= len(rest) // 2:
+                    yield dict(case, src={"items": rest})
+        # (num_workers is not shrunk: every change of it restarts joblib's worker processes, ~5 s each)
 
 
 # ---------------------------------------------------------------------------
@@ -971,26 +1425,59 @@ def _state_class(case, tree):
     return "started-empty" if n == 0 else "started-partial"
 
 
+def _violation_class(msg):
+    if msg is None:
+        return "property-holds"
+    if "not a complete copy" in msg or "marker is missing" in msg or "incomplete destination" in msg:
+        return "RETURNED-OVER-INCOMPLETE-COPY"
+    if "unexpected exception" in msg:
+        import re
+        m = re.search(r"unexpected exception (\w+)", msg)
+        return "raises:" + (m.group(1) if m else "?")
+    if "was touched" in msg:
+        return "COMPLETED-COPY-OR-MANUAL-FOLDER-TOUCHED"
+    return "other:" + msg[:40]
+
+
 def features(case, obs):
+    if case.get("concurrent"):
+        if "concurrent" not in obs:
+            return ["measure=concurrent_copiers:harness-failure"]
+        return [f"measure=concurrent_copiers[{case['fmt']},stagger={case['concurrent']['stagger_ms']}ms]: "
+                + _conc_summary(obs["concurrent"])]
+    if case.get("measure"):
+        return [f"measure={case['measure']}[{case['fmt']}]: " + _violation_class(
+            oracle_core(case, obs) if "attempts" in obs else "other:harness")]
     f = [f"fn={case['variant']}", f"fmt={case['fmt']}", f"rel={case['rel']}", f"init={case['init']}",
          f"kills={len(case['kills'])}", f"workers={case.get('workers', 0)}"]
     if case.get("strace"):
-        f.append("strace=" + case["strace"][0])
+        f.append("strace=" + str(case["strace"][0] or "uninterrupted"))
         if "strace" in obs:
             f.append("strace_killed=" + str(obs["strace"]["killed"]))
             f.append("strace_hit_target=" + str(obs["strace"]["last"] == [case["strace"][0], case["strace"][1], False]))
     for att in obs.get("attempts", []):
+        if att.get("torn") is not None:
+            f.append("killed_inside_write_of=" + ("end_marker" if att["trace"][-1][1][-1] == ENAME else
+                                                  "start_marker" if att["trace"][-1][1][-1] == SNAME else "data_file"))
         if att["ret"] is None:
             f.append("state_after_kill=" + _state_class(case, att["tree"]))
             if att["trace"]:
                 f.append("last_op_before_kill=" + att["trace"][-1][0])
+                if att["trace"][-1][0] == "create" and att["trace"][-1][1][-1] == ENAME:
+                    f.append("killed_between_end_marker_create_and_write"
+                             + ("(SIGKILL at the write system call)" if att["kill_at"] == "SIGKILL" else ""))
+    if any("l" in node for _, node in (case["src"].get("tree") or [])):
+        f.append("source_has_symlink")
+    if case["fmt"] == "zips":
+        f.append(f"zips={sum(1 for _, it in case['src']['items'] if 'zip' in it)},workers={case.get('workers', 0)}")
     return f
 
 
 def nontrivial_key(case, obs):
     atts = obs.get("attempts", [])
     killed = [a for a in atts if a["ret"] is None and (a["trace"] is None or len(a["trace"]) > 0)]
-    if not killed:
+    if case.get("measure") or (not killed and not any(a.get("pools") for a in atts)):
         return None
     return (case["variant"], case["fmt"], case["rel"], case["init"], tuple(case["kills"]), str(case.get("strace")),
+            case.get("workers", 0), bool(case.get("torn")),
             tuple(_state_class(case, a["tree"]) for a in killed), json.dumps(case["src"], sort_keys=True)[:200])
